@@ -411,7 +411,7 @@ func run(c *core.Ctx) error {
 		go func(sh *shard) {
 			defer wg.Done()
 			defer func() { <-sem }()
-			ps, res, tb, err := runShard(c, sh, subjInts, nil, w, time.Duration(c.Pick(6, 25))*time.Minute)
+			ps, res, tb, err := runShard(c, sh, subjInts, nil, w, time.Duration(c.Pick(20, 40))*time.Minute)
 			mu.Lock()
 			defer mu.Unlock()
 			if err == nil && !res.OK {
@@ -673,12 +673,18 @@ func explain(c *core.Ctx, mism []*mismatch, subjInts [][]int) error {
 	for _, set := range combos {
 		var todo []*Case
 		for _, m := range mism {
-			if open(m) {
+			n := 0
+			for _, d := range set {
+				if applicable(d, m.cs) {
+					n++
+				}
+			}
+			if open(m) && n >= 2 {
 				todo = append(todo, m.cs)
 			}
 		}
 		if len(todo) == 0 {
-			break
+			continue
 		}
 		got, err := deviant(set, todo, c.Workers)
 		if err != nil {
